@@ -76,8 +76,11 @@ type solveOpts struct {
 
 // decide runs the portfolio on one obligation.
 func decide(o *obligation, opts solveOpts) {
-	script := o.ctx.script(o.NAssume, o.Goal, nil)
+	script := o.ctx.scriptMode(o.NAssume, o.Goal, nil, o.ExpectSat)
 	o.SizeB = len(script)
+	if o.ExpectSat && opts.timeout > 5*time.Second {
+		opts.timeout = 5 * time.Second
+	}
 	if opts.dumpDir != "" {
 		os.MkdirAll(opts.dumpDir, 0o755)
 		os.WriteFile(filepath.Join(opts.dumpDir, mangle(o.Name)+".smt2"), []byte(script), 0o644)
